@@ -72,6 +72,17 @@ CHECKS = {
   "All 31 documented tools plus unknown names x 5 role inputs x mutations flag x runtime-control flag x principal presence, each with tools/list and tools/call and every argument-shape variant (unknown key, missing arguments, actor equal/mismatching/empty, missing reason, 8 path spellings, config_apply content x mode), are run against a seeded SQLite db, a config file, a pid file and recording stand-ins for the run binary and signalled process; allowed iff role rank, flag and principal/actor rule hold; refused calls have no effect; tools/list equals the allowed set; config-writing tools touch only the configured path with content that parses and compiles; every mutating call leaves exactly one audit record with the required fields.",
   "No real hookaido process is started or signalled; Postgres proxy path not run; arbitrary argument strings beyond the listed alphabet are not enumerated.",
   "DESIGN.md §6 C20"),
+
+ "C04": ("bfs", "model_checking",
+  "explicit-state search over dequeue / lease-operation / operator / clock histories through the real pull HTTP handler (wired by startServers) on memory and SQLite in a virtual-time bubble, validated against qmodel plus the idempotent-duplicate rule",
+  "Every history up to the depth over dequeue (batch 1/2), ack / nack / dead-letter / extend with each of the newest lease ids and an unknown id, batch ack/nack with duplicate, stale and unknown ids mixed with valid ones, operator cancel/requeue and clock steps (+1 ns, +1 s, +ttl, +ttl+1 s, to the end of the idempotency window - 1 ns) is executed through the pull API; a call with a non-current or expired lease must change nothing except returning an expired message to the queue and must answer 409 unless an identical operation on that lease succeeded less than RecentLeaseOpTTL ago, in which case the duplicate answer is allowed and must have no effect; batches are judged per lease id; the full listing is compared after every step.",
+  "Operator mutations go through the Store; the gRPC status mapping is a thin switch over the same operations; small scope: 2 messages, 3 newest leases.",
+  "DESIGN.md §6 C04"),
+ "C10": ("enum", "exploration",
+  "bounded-exhaustive enumeration of compiled configurations (ordered route lists x channel x match shapes) x requests through the real ingress handler against an independent reference resolver",
+  "Every ordered list of <= 2 (thorough: 3) routes over path {/a,/a/b,/ab,/} x channel {bare, inbound wrapper, outbound, internal} x 13 match shapes is compiled by the real compiler and booted through startServers; every request over path (10) x method (3) x Host (8) x header X (6) x query (4) x remote address (5), complete along every dimension some matcher observes, is served; status, Allow set and route/target of the stored message must equal the reference (inbound routes only, first match in configuration order, criteria ANDed, segment-boundary prefix, POST by default, exact/*/sub-domain hosts, header and query values, remote prefixes; 404/405 leave the store empty).",
+  "Five details the documentation leaves open (// collapsing, trailing-dot host, * without Host, comma lists in header values, IPv4-mapped peers) are measured once and applied consistently, never alarmed on; encoded slashes excluded.",
+  "DESIGN.md §6 C10"),
 }
 
 NOT_YET = "check not built yet (work in progress, see DESIGN.md §6)"
